@@ -34,6 +34,7 @@ type Exec struct {
 	prog    *ssa.Program
 	ld      *Loaded
 	globals map[*ssa.Global]*Object
+	rxGlobals map[*ssa.Global]string
 	nobj    int
 	assumes []*Term
 	obls    []*Oblig
@@ -802,6 +803,8 @@ func (x *Exec) globalObj(g *ssa.Global) *Object {
 	var val Value
 	if n := x.ld.dumpLookup(g); n != nil {
 		val = &RawV{N: n, Typ: et, Pkg: g.Pkg.Pkg.Path()}
+	} else if pat, ok := x.regexGlobals()[g]; ok {
+		val = &PtrV{Obj: x.newObject(nil, &RegexV{Pat: pat}, "regexp "+pat)}
 	} else {
 		val = x.zero(et)
 	}
